@@ -120,6 +120,17 @@ def _layout_case(case, rng):
     ok0 = len(s0s) == 1 and all((s0[a]['x'], s0[a]['y']) == start[a] for a in ("A0", "A1"))
     if not case.check(ok0, "initial-state-positions-differ-from-layout", f"{s0!r} vs {start!r}"):
         return
+    # a SECOND game alive (same size, agents and goals; no obstacles, walls or fences), asked about every state / joint action
+    # just before the judged game is
+    other_game = None
+    if rng.random() < 0.35:
+        plain = "\n".join(" ".join(".".join(sym for sym in c_ if sym in ("A0", "A1") or sym in GOALS) or "." for c_ in row_) for row_ in cells)
+        try:
+            other_game = TabularGridGame(plain)
+            case.count("games_alive_side_by_side")
+        except BaseException as e_:
+            if type(e_).__name__ == "CaseTimeout" or isinstance(e_, (KeyboardInterrupt, SystemExit)):
+                raise
     limit = 10 ** 9 if case.tier == "thorough" else 60
     seen = {}
     key = lambda st: (st["A0"]["x"], st["A0"]["y"], st["A1"]["x"], st["A1"]["y"])
@@ -137,6 +148,12 @@ def _layout_case(case, rng):
             case.count("own_goal_states")
         for ja0, ja1 in itertools.product(ACTIONS, ACTIONS):
             ja = {"A0": dict(ja0), "A1": dict(ja1)}
+            if other_game is not None:
+                try:
+                    other_game.next_state_dist(st, ja)
+                except BaseException as e_:
+                    if type(e_).__name__ == "CaseTimeout" or isinstance(e_, (KeyboardInterrupt, SystemExit)):
+                        raise
             d = case.call("next_state_dist", gg.next_state_dist, st, ja, facts=facts)
             npairs += 1
             case.count("state_action_pairs")
